@@ -51,8 +51,17 @@ func c12closures(fn *ssa.Function) []*ssa.Function {
 	for i := 0; i < len(out); i++ {
 		for _, b := range out[i].Blocks {
 			for _, in := range b.Instrs {
+				// A bound method value `x.m` is a closure too: go/ssa creates it with a
+				// MakeClosure over the receiver whose function is a synthetic wrapper
+				// without a parent (in the loader's variant 2 the wrapper holds the body
+				// of a new method m). A named function used as a plain value is not.
+				mc, _ := in.(*ssa.MakeClosure)
 				for _, op := range in.Operands(nil) {
-					if g, ok := (*op).(*ssa.Function); ok && g.Parent() != nil && g.Blocks != nil && !seen[g] {
+					g, ok := (*op).(*ssa.Function)
+					if !ok || g.Blocks == nil || seen[g] {
+						continue
+					}
+					if g.Parent() != nil || (mc != nil && mc.Fn == ssa.Value(g)) {
 						seen[g] = true
 						out = append(out, g)
 					}
